@@ -3,7 +3,7 @@
    variables, and the few Python built-ins the regenerated clause templates
    (Generated/Tseytin.v) are written with. *)
 Require Import Cirbo.Model.Base.
-Open Scope Z_scope.
+Local Open Scope Z_scope.
 
 Definition lit := Z.
 Definition clause := list Z.
